@@ -225,6 +225,21 @@ Definition KnownClass_C17_agent_not_runnable (w : world) : bool :=
   four_present w && negb (version_ok SysExe w).
 (* no backup entry at the four computed backup locations *)
 Definition no_backup (w : world) : bool := forallb (fun l => negb (fs_has l (wfs w))) bak_locs.
+(* KNOWN FINDING C17-K2 (known_findings.d/C17.json): `backup` died while saving the executable or
+   the unit file.  w0 = the world before backup, w1 = the world the cut backup left: the marker
+   executable is there, configuration and eBPF object are saved (content), but the backup is not
+   the complete copy of the four installed files.  `restore` accepts it (check_backup_exists looks
+   at the executable only). *)
+Definition same_data (a b : option file) : bool :=
+  match a, b with Some x, Some y => beq (snd x) (snd y) | _, _ => false end.
+Definition same_file (a b : option file) : bool :=
+  match a, b with Some x, Some y => (fst x =? fst y) && beq (snd x) (snd y) | None, None => true | _, _ => false end.
+Definition backup_complete (w0 w1 : world) : bool :=
+  same_file (fs_get BakExe (wfs w1)) (fs_get SysExe (wfs w0)) && same_file (fs_get BakCfg (wfs w1)) (fs_get SysCfg (wfs w0)) &&
+  same_file (fs_get BakEbpf (wfs w1)) (fs_get SysEbpf (wfs w0)) && same_file (fs_get BakUnit (wfs w1)) (fs_get SysUnit (wfs w0)).
+Definition KnownClass_C17_backup_cut (w0 w1 : world) : bool :=
+  fs_has BakExe (wfs w1) && same_data (fs_get BakCfg (wfs w1)) (fs_get SysCfg (wfs w0)) &&
+  same_data (fs_get BakEbpf (wfs w1)) (fs_get SysEbpf (wfs w0)) && negb (backup_complete w0 w1).
 (* a complete package sits beside the tool *)
 Definition package_complete (w : world) : bool :=
   forallb (fun l => fs_has l (wfs w)) pkg_locs && version_ok PkgExe w.
